@@ -94,9 +94,11 @@ Lemma init_finish_done : forall p st q id k st' o,
       NKdf (NKdf (NKdf (ck (hs_sym st)) (dh (p_e p) re) 1) (dh (p_e p) rs) 1) (dh (p_s p) re) 1.
 Proof.
   intros p st q id k st' o H. unfold init_finish in H.
+  destruct (faulty p (FRead 0)); [discriminate|].
   destruct q as [|y rest]; [discriminate|].
   destruct (read_m2 p st y) as [[[st2 rs] pl]|] eqn:Er; [|discriminate].
   destruct (handle_payload p pl rs) as [[id' k']|c] eqn:Eh; [|discriminate].
+  destruct (faulty p FReceived || faulty p FSend || faulty p (FWrite 1))%bool; [discriminate|].
   destruct (write_m3 p st2) as [st3 m3] eqn:Ew. inversion H; subst. clear H.
   apply handle_payload_sound in Eh. destruct Eh as [-> [[r [ext ->]] Hc]].
   unfold read_m2 in Er.
@@ -136,9 +138,11 @@ Lemma resp_finish_done : forall p st q id k st',
     ck (hs_sym st') = NKdf (ck (hs_sym st)) (dh (p_e p) rs) 1.
 Proof.
   intros p st q id k st' H. unfold resp_finish in H.
+  destruct (faulty p (FRead 1)); [discriminate|].
   destruct q as [|z rest]; [discriminate|].
   destruct (read_m3 p st z) as [[[st2 rs] pl]|] eqn:Er; [|discriminate].
   destruct (handle_payload p pl rs) as [[id' k']|c] eqn:Eh; [|discriminate].
+  destruct (faulty p FReceived); [discriminate|].
   inversion H; subst. clear H.
   apply handle_payload_sound in Eh. destruct Eh as [-> [[r [ext ->]] Hc]].
   unfold read_m3 in Er.
@@ -158,22 +162,61 @@ Qed.
 
 (* ---- the two-party run ---------------------------------------------------------------------- *)
 Lemma run_pair_done : forall pi pr net rI rR, run_pair pi pr net = (rI, rR) ->
-  (forall id k st, rI = Done id k st -> exists stI q o, init_finish pi stI q = (Done id k st, o)) /\
-  (forall id k st, rR = Done id k st -> exists stR q, resp_finish pr stR q = Done id k st).
+  (forall id k st, rI = Done id k st ->
+     faulty pi (FWrite 0) = false /\ exists stI q o, init_finish pi stI q = (Done id k st, o)) /\
+  (forall id k st, rR = Done id k st ->
+     faulty pr (FRead 0) = false /\ faulty pr FSend = false /\ faulty pr (FWrite 0) = false /\
+     exists stR q, resp_finish pr stR q = Done id k st).
 Proof.
   intros pi pr net rI rR H. unfold run_pair in H.
   destruct (write_m1 pi) as [sI1 m1].
+  destruct (faulty pi (FWrite 0)) eqn:F1.
+  { inversion H; subst. split; intros; [discriminate|]. destruct (faulty pr (FRead 0)); discriminate. }
+  destruct (faulty pr (FRead 0)) eqn:F2.
+  { inversion H; subst. split; intros id k st Hd; [|discriminate].
+    split; [reflexivity|]. destruct (init_finish pi sI1 []) as [r o] eqn:Ei. cbn [fst] in Hd. subst. eauto. }
   destruct (net M1 m1) as [|x qR].
   { inversion H; subst. split; intros; discriminate. }
   destruct (read_m1 pr x) as [sR1|].
   2:{ inversion H; subst. split; intros; discriminate. }
+  destruct (faulty pr FSend) eqn:F3; cbn [orb] in H.
+  { inversion H; subst. split; intros id k st Hd; [|discriminate].
+    split; [reflexivity|]. destruct (init_finish pi sI1 []) as [r o] eqn:Ei. cbn [fst] in Hd. subst. eauto. }
+  destruct (faulty pr (FWrite 0)) eqn:F4.
+  { inversion H; subst. split; intros id k st Hd; [|discriminate].
+    split; [reflexivity|]. destruct (init_finish pi sI1 []) as [r o] eqn:Ei. cbn [fst] in Hd. subst. eauto. }
   destruct (write_m2 pr sR1) as [sR2 m2].
   destruct (init_finish pi sI1 (net M2 m2)) as [r o] eqn:Ei.
   destruct o as [m3|]; inversion H; subst; clear H; split; intros id k st Hd.
-  - subst. eauto.
-  - eauto.
-  - subst. eauto.
-  - eauto.
+  - subst. split; [reflexivity|]. eauto.
+  - repeat split; eauto.
+  - subst. split; [reflexivity|]. eauto.
+  - repeat split; eauto.
+Qed.
+
+(* a completed endpoint passed every stage on its path without a fault *)
+Lemma init_finish_nofault : forall p st q id k st' o,
+  init_finish p st q = (Done id k st', o) ->
+  faulty p (FRead 0) = false /\ faulty p FReceived = false /\ faulty p FSend = false /\ faulty p (FWrite 1) = false.
+Proof.
+  intros p st q id k st' o H. unfold init_finish in H.
+  destruct (faulty p (FRead 0)); [discriminate|].
+  destruct q as [|y rest]; [discriminate|].
+  destruct (read_m2 p st y) as [[[st2 rs] pl]|]; [|discriminate].
+  destruct (handle_payload p pl rs) as [[id' k']|c]; [|discriminate].
+  destruct (faulty p FReceived); [discriminate|]. destruct (faulty p FSend); [discriminate|].
+  destruct (faulty p (FWrite 1)); [discriminate|]. repeat split; reflexivity.
+Qed.
+
+Lemma resp_finish_nofault : forall p st q id k st',
+  resp_finish p st q = Done id k st' -> faulty p (FRead 1) = false /\ faulty p FReceived = false.
+Proof.
+  intros p st q id k st' H. unfold resp_finish in H.
+  destruct (faulty p (FRead 1)); [discriminate|].
+  destruct q as [|z rest]; [discriminate|].
+  destruct (read_m3 p st z) as [[[st2 rs] pl]|]; [|discriminate].
+  destruct (handle_payload p pl rs) as [[id' k']|c]; [|discriminate].
+  destruct (faulty p FReceived); [discriminate|]. split; reflexivity.
 Qed.
 
 Lemma names_peer_check : forall initiator sd x,
@@ -190,11 +233,11 @@ Lemma run_session_expected : forall sc n n' rI rR, run_session sc n n' = (rI, rR
 Proof.
   intros sc n n' rI rR H. unfold run_session in H. apply run_pair_done in H. destruct H as [HI HR].
   split; intros id k st x Hd Hn.
-  - destruct (HI _ _ _ Hd) as [stI [q [o Hf]]]. apply init_finish_done in Hf.
+  - destruct (HI _ _ _ Hd) as [_ [stI [q [o Hf]]]]. apply init_finish_done in Hf.
     destruct Hf as [re [cs [cp [rest [rs [r [ext [st2 [_ [_ [_ [_ [_ [Hc _]]]]]]]]]]]]]].
     apply (names_peer_check true) in Hn. destruct Hn as [Hk He].
     cbn [party_of p_check p_expect] in Hc. rewrite He in Hc. specialize (Hc Hk). inversion Hc. reflexivity.
-  - destruct (HR _ _ _ Hd) as [stR [q Hf]]. apply resp_finish_done in Hf.
+  - destruct (HR _ _ _ Hd) as [_ [_ [_ [stR [q Hf]]]]]. apply resp_finish_done in Hf.
     destruct Hf as [cs [cp [rest [rs [r [ext [_ [_ [_ [_ [Hc _]]]]]]]]]]].
     apply (names_peer_check false) in Hn. destruct Hn as [Hk He].
     cbn [party_of p_check p_expect] in Hc. rewrite He in Hc. specialize (Hc Hk). inversion Hc. reflexivity.
